@@ -39,6 +39,20 @@ pub struct Plan {
     pub barrier_every: usize,
     /// only forward what the master-side state accepted (the real master's behaviour)
     pub master_filters: bool,
+    /// back-pressure family: the master stops reading while large answers are produced back to back
+    #[serde(default)]
+    pub backpressure: Option<BackPressure>,
+}
+
+#[derive(Clone, Debug, Serialize, Deserialize)]
+pub struct BackPressure {
+    pub command_buffer_size: u64,
+    pub max_command_buffer_size: u64,
+    /// number of QueryClustersHashes sent back to back while the master does not read
+    pub queries: usize,
+    pub pause_ms: u64,
+    /// SO_RCVBUF of the master's end (bytes the kernel absorbs before the worker's writes would block)
+    pub rcvbuf: i32,
 }
 
 fn worker_verbs(rng: &mut Prng, clusters: &[String]) -> Request {
@@ -64,8 +78,39 @@ fn worker_verbs(rng: &mut Prng, clusters: &[String]) -> Request {
     }
 }
 
+/// Back-pressure family: clusters with long ids make every QueryClustersHashes answer a large fraction of the worker's
+/// `max_command_buffer_size`; the master sends many of them back to back and does not read for a while, so answers pile
+/// up in the socket and in the channel's back buffer (a partially flushed answer plus the next one exceed the cap: the
+/// worker has to keep the next one queued, not drop it). Every id must still get exactly one final answer.
+fn generate_backpressure(seed: u64, rng: &mut Prng) -> Plan {
+    let max = *rng.pick(&[20_000u64, 40_000, 86_016]);
+    // answer size: 55-90 % of the cap
+    let target = max * (55 + rng.below(36)) / 100;
+    let n_clusters = 4 + rng.below(36) as usize;
+    let id_len = ((target as usize / n_clusters).saturating_sub(14)).max(8);
+    let mut ops: Vec<Request> = Vec::new();
+    for i in 0..n_clusters {
+        let mut id = format!("c{i:03}-");
+        while id.len() < id_len { id.push((b'a' + ((i + id.len()) % 26) as u8) as char); }
+        ops.push(RequestType::AddCluster(sozu_command_lib::proto::command::Cluster { cluster_id: id, ..Default::default() }).into());
+    }
+    let mut sched = SchedCfg::default();
+    sched.actor_burst = *rng.pick(&[1u32, 2, 8]);
+    Plan {
+        seed,
+        family: "cmd_backpressure".into(),
+        sched,
+        ops: cfggen::ops_to_value(&ops),
+        wq: Quantum::All,
+        barrier_every: 0,
+        master_filters: true,
+        backpressure: Some(BackPressure { command_buffer_size: *rng.pick(&[4096u64, 16384]), max_command_buffer_size: max, queries: 6 + rng.below(50) as usize, pause_ms: *rng.pick(&[50u64, 500, 3000]), rcvbuf: *rng.pick(&[2304i32, 4608, 32768]) }),
+    }
+}
+
 pub fn generate(seed: u64, tier: Tier) -> Plan {
     let mut rng = Prng::derive(seed, "c08/plan");
+    if Prng::derive(seed, "c08/family").below(10) == 0 { return generate_backpressure(seed, &mut rng); }
     let opts = cfggen::GenOpts::swarm(&mut rng);
     let len = match tier { Tier::Quick => 1 + rng.below(25) as usize, Tier::Thorough => 1 + rng.below(60) as usize };
     let mut ops = cfggen::gen_history(&mut rng, len, &opts);
@@ -90,6 +135,7 @@ pub fn generate(seed: u64, tier: Tier) -> Plan {
         wq: match rng.below(5) { 0 => Quantum::Fixed(1), 1 => Quantum::Uniform(1, 40), 2 => Quantum::Uniform(1, 3000), _ => Quantum::All },
         barrier_every: *rng.pick(&[0usize, 0, 1, 3]),
         master_filters: rng.below(4) != 0,
+        backpressure: None,
     }
 }
 
@@ -145,13 +191,23 @@ fn run(p: &Plan) -> (Outcome, ConfigState, Vec<bool>) {
         let barrier_every = p.barrier_every;
         let wq = p.wq.clone();
         let probes = probe_addrs.clone();
-        let (end, mid) = netsim::run_worker(&mut w, Knobs::default().server_config(), ConfigState::new(), Listeners::default(), |_w, m: &mut Master| {
+        let mut knobs = Knobs::default();
+        if let Some(bp) = &p.backpressure { knobs.command_buffer_size = bp.command_buffer_size; knobs.max_command_buffer_size = bp.max_command_buffer_size; }
+        let bp = p.backpressure.clone();
+        let (end, mid) = netsim::run_worker(&mut w, knobs.server_config(), ConfigState::new(), Listeners::default(), |_w, m: &mut Master| {
             m.wq = wq;
             for (i, r) in to_send.iter().enumerate() {
                 m.push(MOp::SendId(format!("C{i}"), r.clone()));
                 if barrier_every > 0 && (i + 1) % barrier_every == 0 { m.push(MOp::BarrierFor(30 * crate::world::SEC)); }
             }
             m.push(MOp::BarrierFor(30 * crate::world::SEC));
+            if let Some(bp) = &bp {
+                m.push(MOp::SetRcvBuf(bp.rcvbuf));
+                m.push(MOp::PauseReads(bp.pause_ms * MS));
+                for i in 0..bp.queries { m.push(MOp::SendId(format!("BP{i}"), RequestType::QueryClustersHashes(QueryClustersHashes {}).into())); }
+                m.push(MOp::Sleep(bp.pause_ms * MS));
+                m.push(MOp::BarrierFor(120 * crate::world::SEC));
+            }
             // the worker's view
             m.push(MOp::SendId("QH".into(), RequestType::QueryClustersHashes(QueryClustersHashes {}).into()));
             for (i, c) in cluster_ids.iter().enumerate() { m.push(MOp::SendId(format!("QC{i}"), RequestType::QueryClusterById(c.clone()).into())); }
